@@ -461,7 +461,22 @@ class Printer:
         return 'debugger;'
 
     def s_Expr(self, x):
-        return self.expr(self.fld(x, 'expr')) + ';'
+        e = self.fld(x, 'expr')
+        sep = ''
+        try:
+            # realise the span relation of the model: a statement that ends more than one byte after its expression has
+            # something (a space) between the expression and the semicolon
+            eb = self.box(e)
+            if eb.lazy is None and self.variant_name(eb) == 'Lit':
+                lit = eb.fields[0]
+                if lit.lazy is None and self.variant_name(lit) == 'Str':
+                    hi_e = self.fld(lit.fields[0], 'span').fields[1].fields[0]
+                    hi_s = self.fld(x, 'span').fields[1].fields[0]
+                    if isinstance(hi_e, int) and isinstance(hi_s, int) and hi_s - hi_e >= 2 and hi_s // 100 == hi_e // 100:
+                        sep = ' '
+        except Exception:
+            sep = ''
+        return self.expr(e) + sep + ';'
 
     def s_Return(self, x):
         a = self.opt(self.fld(x, 'arg'))
